@@ -552,6 +552,43 @@ func vecData(op *VecOp, thorough bool) (data [][][]*V, shapes [][2]int) {
 	}()
 	S, S5 := latticeS, latticeS5
 	withSpec := append(append([]*V{}, S5...), latticeSpec...)
+	// wide magnitudes (every branch): length 1 over all of W, length 2 over its larger half
+	W, W3 := latticeW, latticeW[2:5]
+	switch {
+	case op.Matrix && op.Name == "Mtrace":
+		for _, v := range vectorsOver(W, 1) {
+			add([][]*V{v}, 1, 1)
+		}
+		for _, v := range vectorsOver(W3, 2) {
+			add([][]*V{{v[0], valueByName["7"], valueByName["-8"], v[1]}}, 2, 2)
+		}
+	case op.Matrix:
+		for _, v := range vectorsOver(W, 1) {
+			add([][]*V{v}, 1, 1)
+		}
+		for _, v := range vectorsOver(W3, 2) {
+			add([][]*V{v}, 1, 2)
+			add([][]*V{v}, 2, 1)
+		}
+	case op.NVec == 2:
+		for _, a := range vectorsOver(W, 1) {
+			for _, b := range vectorsOver(W, 1) {
+				add([][]*V{a, b}, 0, 0)
+			}
+		}
+		for _, a := range vectorsOver(W3, 2) {
+			for _, b := range vectorsOver(W3, 2) {
+				add([][]*V{a, b}, 0, 0)
+			}
+		}
+	default:
+		for _, v := range vectorsOver(W, 1) {
+			add([][]*V{v}, 0, 0)
+		}
+		for _, v := range vectorsOver(W3, 2) {
+			add([][]*V{v}, 0, 0)
+		}
+	}
 	switch {
 	case op.Matrix && op.Name == "Mtrace":
 		for _, v := range vectorsOver(S, 1) {
